@@ -321,3 +321,66 @@ Fixpoint lock_ok (holder : option nat) (sched : list cstep) : bool :=
 Definition cache_info (s : state) : (list (bytes * dict) * list (bytes * rems)) * list (bytes * rks) :=
   ((map (fun fw => (fst fw, w_cache (snd fw))) s, map (fun fw => (fst fw, w_rem (snd fw))) s),
    map (fun fw => (fst fw, w_rk (snd fw))) s).
+
+(* ---------------------------------------------------------------- run() as a sequence of state updates
+   An exception raised inside run() leaves the state as it is after the updates executed so
+   far.  [run_points s f inp] lists the state before the first update and after each update of
+   run(), in program order:
+     _remove_dead_reminders: each  del self.reminders[name][remkey], then  del self.reminder_keys[name][gone_key]
+     per key and field: [reminders[remkey] += old_value ; reminder_keys[key].add(remkey)] when wrapped,
+                        then the defaultdict read reminders[remkey] (inserts a 0 entry when missing)
+     last: self.cache[name] = input_dict
+   (first call: _add_dict's three stores are taken as one update -- the merged map cannot
+   represent a name present in only some of the three dicts). *)
+Definition last_or {A} (l : list A) (d : A) : A := last l d.
+
+Fixpoint del_tr (r : rems) (rk : rks) (k : key) (is : list nat) : list (rems * rks) :=
+  match is with
+  | [] => []
+  | i :: t => match rem_del r (k, i) with
+              | Val r1 => (r1, rk) :: del_tr r1 rk k t
+              | _ => []
+              end
+  end.
+Fixpoint remove_tr (gone : list key) (r : rems) (rk : rks) : list (rems * rks) :=
+  match gone with
+  | [] => []
+  | g :: t =>
+    let ds := del_tr r rk g (rk_get rk g) in
+    let r1 := fst (last_or ds (r, rk)) in
+    let rk1 := dremove g rk in
+    ds ++ (r1, rk1) :: remove_tr t r1 rk1
+  end.
+Fixpoint fields_tr (k : key) (i : nat) (inp old : tuple) (r : rems) (rk : rks) : list (rems * rks) :=
+  match inp, old with
+  | v :: inp', o :: old' =>
+    let r1 := if v <? o then rem_add r (k, i) o else r in
+    let rk1 := if v <? o then rk_add rk k i else rk in
+    let r2 := rem_touch r1 (k, i) in
+    (if v <? o then [(r1, rk); (r1, rk1)] else []) ++ (r2, rk1) :: fields_tr k (S i) inp' old' r2 rk1
+  | _, _ => []
+  end.
+Fixpoint keys_tr (inp old : dict) (r : rems) (rk : rks) : list (rems * rks) :=
+  match inp with
+  | [] => []
+  | kt :: rest =>
+    match lookup (fst kt) old with
+    | None => keys_tr rest old r rk
+    | Some ot =>
+      let tr := fields_tr (fst kt) 0 (snd kt) ot r rk in
+      tr ++ keys_tr rest old (fst (last_or tr (r, rk))) (snd (last_or tr (r, rk)))
+    end
+  end.
+
+Definition run_points (s : state) (f : bytes) (inp : dict) : list state :=
+  match lookup f s with
+  | None => [s; dset f {| w_cache := inp; w_rem := []; w_rk := [] |} s]
+  | Some w =>
+    let tr1 := remove_tr (gone_keys (w_cache w) inp) (w_rem w) (w_rk w) in
+    let m := last_or tr1 (w_rem w, w_rk w) in
+    let tr2 := keys_tr inp (w_cache w) (fst m) (snd m) in
+    let e := last_or tr2 m in
+    map (fun p => dset f {| w_cache := w_cache w; w_rem := fst p; w_rk := snd p |} s)
+        ((w_rem w, w_rk w) :: tr1 ++ tr2)
+    ++ [dset f {| w_cache := inp; w_rem := fst e; w_rk := snd e |} s]
+  end.
